@@ -11,9 +11,9 @@ EXPLANATION = ("C17 (partial): fraction<T>(float) is executed symbolically.  Dec
                "a value between the two integers adjacent to the input and within max(1,|x|)*2^(4-D) of it.  NOT decided: "
                "termination and the accuracy bound for inputs needing more than K iterations (unbounded floating-point "
                "loop; such paths are reported as 'bound-exceeded', never as success).")
-BOUNDS = {"quick": "T = int8_t from float: integer inputs (all), loop unrolled K = 2 (fractional inputs), exact ratios k/4 with |x| < 4 (exactness, 3-step termination as a claim); T = int16_t from float / double and int32_t from double: integer inputs",
+BOUNDS = {"quick": "T = int8_t from float: integer inputs (all), loop unrolled K = 2 (fractional inputs), exact ratios k/4 with |x| < 4 (exactness, 3-step termination as a claim); T = int16_t from float / double: integer inputs",
           "thorough": "K = 5 for int8_t, K = 3 for int16_t"}
-OPTS = {"quick": {"kernel_budget": 400, "timeout": 45}, "thorough": {"kernel_budget": 3000, "timeout": 300}}
+OPTS = {"quick": {"kernel_budget": 700, "timeout": 45}, "thorough": {"kernel_budget": 3000, "timeout": 300}}
 
 OUT2 = Arg("out", "i32", "arr", n=2, out=True, init="uninit")
 
@@ -77,9 +77,10 @@ def mk(name, T, F, family, K):
 def kernels(opts):
     tier = opts["tier"]
     ks = [mk("K0", "i8", "f32", "integer", 3), mk("K1", "i16", "f32", "integer", 3), mk("K2", "i16", "f64", "integer", 3),
-          mk("K3", "i8", "f32", "fractional", 2 if tier == "quick" else 4), mk("Q0", "i8", "f32", "quarters", 3),
-          mk("K5", "i32", "f64", "integer", 3)]
+          mk("K3", "i8", "f32", "fractional", 2 if tier == "quick" else 4), mk("Q0", "i8", "f32", "quarters", 3)]
     if tier != "quick":
+        # (int32 from double: the only place where numerator + 1 is not promoted; ~1-6 min depending on load: thorough)
+        ks.append(mk("K5", "i32", "f64", "integer", 3))
         ks.append(mk("Q1", "i16", "f64", "quarters", 3))
         ks.append(mk("K4", "i16", "f32", "fractional", 3))
     return ks
